@@ -5,8 +5,9 @@ import ast
 import re
 
 from ..cfg import CFG
-from ..core import (AnalysisError, DefRef, NotConst, Ref, call_name, calls_in, dotted, enclosing_conditions, func_params, get_kw, norm,
-                    qualname_of, walk_no_nested)
+from .. import logic
+from ..core import (AnalysisError, DefRef, NotConst, Ref, call_name, calls_in, dotted, enclosing_conditions, expand_aliases, func_params, get_kw, norm,
+                    qualname_of, single_assign_aliases, walk_no_nested)
 
 PROPERTY = "C18"
 EXPLANATION = (
@@ -81,6 +82,8 @@ def sql_parts(prog, module, e, la, fn):
                 inner = v.value
                 if isinstance(inner, ast.Name) and inner.id in la:
                     out += sql_parts(prog, module, inner, la, fn)
+                elif (isinstance(inner, ast.Call) and norm(inner.func) == "FIELD_MAP.get") or (isinstance(inner, ast.Subscript) and norm(inner.value) == "FIELD_MAP"):
+                    out.append(("typeslot", inner))
                 else:
                     out.append(("slot", inner))
         return out
@@ -122,7 +125,15 @@ def run(ctx):
                     loop = getattr(loop, "_parent", None)
                 if loop is not None and norm(loop.target) == arg.id:
                     lst = norm(loop.iter)
-                    sources = [a.args[0] for a in calls_in(fn) if isinstance(a.func, ast.Attribute) and a.func.attr == "append" and norm(a.func.value) == lst and a.args]
+                    it = la.get(lst) if isinstance(loop.iter, ast.Name) else loop.iter
+                    if isinstance(it, (ast.ListComp, ast.GeneratorExp, ast.SetComp)):
+                        sources = [it.elt]
+                    elif isinstance(it, (ast.List, ast.Tuple)) and it.elts:
+                        sources = list(it.elts)
+                    else:
+                        sources = [a.args[0] for a in calls_in(fn) if isinstance(a.func, ast.Attribute) and a.func.attr == "append" and norm(a.func.value) == lst and a.args]
+                    if not sources:
+                        raise AnalysisError(f"R18.1: cannot find what `{lst}` holds in {fn.name}")
             for src in sources:
                 parts = sql_parts(prog, sq, src, la, fn)
                 text = "".join(t if k == "const" else "\x00" for k, t in parts)
@@ -148,7 +159,12 @@ def run(ctx):
     ph = [st for st in walk_no_nested(pis) if isinstance(st, ast.Assign) and '"?"' in norm(st.value).replace("'", '"')]
     ok = bool(ph) and "len(field_names)" in norm(ph[0].value)
     ctx.check(ok, "R18.1", "prepare_insert_sql:placeholders", "the number of ? placeholders does not derive from the column tuple", pis, "'?' * len(field_names)")
-    ctx.check(norm(ins).count("record.__slots__") >= 1 and "rdict.values()" in norm(ins) and "record._asdict()" in norm(ins), "R18.1", "db_insert_record:column-value-order",
+    ial = single_assign_aliases(ins)
+    rec = func_params(ins)[1] if len(func_params(ins)) > 1 else "record"
+    pcall = next((c for c in calls_in(ins) if norm(c.func) == "prepare_insert_sql"), None)
+    cols_ok = pcall is not None and len(pcall.args) == 2 and norm(expand_aliases(pcall.args[1], ial)) == f"{rec}.__slots__"
+    vals_ok = any(isinstance(c.func, ast.Attribute) and c.func.attr == "values" and norm(expand_aliases(c.func.value, ial)) == f"{rec}._asdict()" for c in calls_in(ins))
+    ctx.check(cols_ok and vals_ok, "R18.1", "db_insert_record:column-value-order",
               "columns (record.__slots__) and values (record._asdict().values()) do not come from the same slot order", ins, "both in __slots__ order")
 
     # ------------------------------------------------------------------ R18.2
@@ -165,7 +181,10 @@ def run(ctx):
         if isinstance(par, ast.BinOp) and isinstance(par.op, ast.Mod):
             test = getattr(par, "_parent", None)
             st = getattr(test, "_parent", None)
-            ok = isinstance(test, ast.Compare) and isinstance(st, ast.If) and [norm(x) for x in st.body] == ["self.flush()"] and norm(par.left) == "self.count"
+            # `count % batch_size == 0` and `not count % batch_size` are the same cadence test
+            cadence = (isinstance(test, ast.Compare) and len(test.ops) == 1 and isinstance(test.ops[0], ast.Eq) and isinstance(test.comparators[0], ast.Constant)
+                       and test.comparators[0].value == 0 and test.left is par) or (isinstance(test, ast.UnaryOp) and isinstance(test.op, ast.Not))
+            ok = cadence and isinstance(st, ast.If) and st.test is test and [norm(x) for x in st.body] == ["self.flush()"] and not st.orelse and norm(par.left) == "self.count"
         elif isinstance(par, ast.Call) and isinstance(par.func, ast.Attribute) and par.func.attr == "fetchmany":
             ok = True
         ctx.check(ok, "R18.2", f"{qualname_of(fn).replace('flow.record.adapter.sqlite.', '')}:batch_size@{norm(par)[:40]}",
@@ -213,19 +232,48 @@ def run(ctx):
     ctx.rule("R18.4", "write(): for a descriptor not seen before: create table, add missing columns, flush - all before the insert; 'seen' is keyed by the descriptor itself")
     wr = ctx.anchor_func("flow.record.adapter.sqlite.SqliteWriter.write")
     wcfg = CFG(wr)
-    guard = next((st for st in walk_no_nested(wr) if isinstance(st, ast.If) and "descriptors_seen" in norm(st.test)), None)
-    if guard is None:
-        raise AnalysisError("R18.4: unseen-descriptor guard not found")
-    key_expr = norm(guard.test.left) if isinstance(guard.test, ast.Compare) else None
-    key_def = next((st.value for st in walk_no_nested(wr) if isinstance(st, ast.Assign) and norm(st.targets[0]) == key_expr), None)
-    ctx.check(isinstance(guard.test.ops[0], ast.NotIn) and key_def is not None and norm(key_def) == "record._desc", "R18.4", "write:seen-key",
-              f"'seen' is keyed by `{norm(key_def) if key_def is not None else key_expr}`: a type of the same name with more fields would not trigger ALTER TABLE", guard,
-              "keyed by record._desc (name and fields)", key="R18.4:write:seen-key")
-    order = [norm(st.value.func) for st in guard.body if isinstance(st, ast.Expr) and isinstance(st.value, ast.Call)]
-    want = ["self.descriptors_seen.add", "create_descriptor_table", "update_descriptor_columns", "self.flush"]
-    ctx.check(order == want, "R18.4", "write:new-type-sequence", f"new-type handling is {order}", guard, " -> ".join(want), key="R18.4:write:new-type-sequence")
+    wal = single_assign_aliases(wr)
+    rparam = func_params(wr)[1] if len(func_params(wr)) > 1 else "r"
+    # `record = r` style re-bindings of the parameter are aliases too
+    adds = [c for c in calls_in(wr) if isinstance(c.func, ast.Attribute) and c.func.attr == "add" and "descriptors_seen" in norm(c.func.value) and c.args]
+    if len(adds) != 1:
+        raise AnalysisError(f"R18.4: expected one descriptors_seen.add() in write(), found {len(adds)}")
+    add = adds[0]
+    seen_set = norm(add.func.value)
+    key_e = expand_aliases(add.args[0], wal)
+    addn = wcfg.node_of(add)
+    prem = [(expand_aliases(e0, wal), p0) for e0, p0 in logic.facts_as_premises(wcfg.facts_at(addn.id))]
+    goal = ast.Compare(left=key_e, ops=[ast.NotIn()], comparators=[ast.parse(seen_set, mode="eval").body])
+    guarded = logic.implies(prem, goal)
+    ctx.check(guarded and norm(key_e) == f"{rparam}._desc", "R18.4", "write:seen-key",
+              f"'seen' is keyed by `{norm(key_e)}`{'' if guarded else ' and the new-type handling is not guarded by `key not in seen`'}: a type of the same name with more fields would not trigger ALTER TABLE",
+              add, "keyed by record._desc (name and fields), handled when not yet seen", key="R18.4:write:seen-key")
+    want = ["create_descriptor_table", "update_descriptor_columns", "self.flush"]
+    seq = [add]
+    missing = []
+    for w in want:
+        c = next((c for c in calls_in(wr) if norm(c.func) == w), None)
+        if c is None:
+            missing.append(w)
+        else:
+            seq.append(c)
+    order_ok = not missing
+    if order_ok:
+        ids = [wcfg.node_of(c).id for c in seq]
+        for a, b in zip(ids, ids[1:]):
+            # same control region, in order
+            if not (a != b and wcfg.dominates(a, b) and wcfg.postdominates(b, a, normal_only=True)):
+                order_ok = False
+        # the DDL gets the descriptor that was tested
+        for c in seq[1:3]:
+            if not (len(c.args) >= 2 and norm(expand_aliases(c.args[1], wal)) == norm(key_e)):
+                order_ok = False
+    order = [norm(c.func) for c in sorted(seq, key=lambda c: (c.lineno, c.col_offset))]
+    ctx.check(order_ok, "R18.4", "write:new-type-sequence", f"new-type handling is {order}{' (missing: ' + str(missing) + ')' if missing else ''}", add,
+              " -> ".join(["self.descriptors_seen.add"] + want), key="R18.4:write:new-type-sequence")
+    guard = add
     icall = next((c for c in calls_in(wr) if norm(c.func) == "db_insert_record"), None)
-    ctx.check(icall is not None and wcfg.dominates(wcfg.node_of(guard).id, wcfg.node_of(icall).id) and enclosing_conditions(icall, wr) == [], "R18.4", "write:insert-after-ddl",
+    ctx.check(icall is not None and enclosing_conditions(icall, wr) == [] and (not order_ok or wcfg.node_of(icall).id in wcfg.reachable(wcfg.node_of(seq[-1]).id)), "R18.4", "write:insert-after-ddl",
               "the insert is not unconditionally preceded by the new-type handling", wr, "insert after the (conditional) DDL, unconditional")
     cnt = [st for st in walk_no_nested(wr) if isinstance(st, ast.AugAssign) and norm(st.target) == "self.count"]
     ctx.check(len(cnt) == 1 and norm(cnt[0].value) == "1" and enclosing_conditions(cnt[0], wr) == [], "R18.4", "write:count", "the record counter is not incremented once per record", wr, "count += 1")
@@ -294,7 +342,18 @@ def run(ctx):
     ctx.check(bool(conj) and not bad, "R18.6", "SqliteReader.table_names:query", f"the table enumeration is restricted by {bad}: `_` and `%` are LIKE wildcards (and LIKE is case-insensitive), so "
               "tables of record types whose name matches are silently not read back", tn, f"WHERE {' AND '.join(conj)}", key="R18.6:table_names:extra-predicate")
     itf = ctx.anchor_func("flow.record.adapter.sqlite.SqliteReader.__iter__")
-    ctx.check("self.table_names()" in norm(itf) and not [n for n in ast.walk(itf) if isinstance(n, (ast.Break, ast.Continue))], "R18.6", "SqliteReader.__iter__:all-tables",
+    ital = single_assign_aliases(itf)
+    tloops = [n for n in ast.walk(itf) if isinstance(n, ast.For) and norm(expand_aliases(n.iter, ital)) == "self.table_names()"]
+
+    def _loop_of(n):
+        q = getattr(n, "_parent", None)
+        while q is not None and not isinstance(q, (ast.For, ast.While)):
+            q = getattr(q, "_parent", None)
+        return q
+
+    cut_short = [n for lp in tloops for n in ast.walk(lp) if (isinstance(n, (ast.Break, ast.Continue)) and _loop_of(n) is lp) or isinstance(n, ast.Return)
+                 or (isinstance(n, ast.Break) and _loop_of(n) is not lp)]
+    ctx.check(len(tloops) == 1 and not cut_short, "R18.6", "SqliteReader.__iter__:all-tables",
               "__iter__ does not visit every enumerated table", itf, "for table_name in self.table_names()")
 
 
